@@ -43,7 +43,10 @@ class VUnit:
         self.extracts = []
         self.contracts = {}   # fn -> {"ret":..., "lines":[...]}
         self.loops = {}       # (fn, n) -> [lines]
-        self.proofs = []      # (fn, after, [lines])
+        self.proofs = []      # (fn, after, [lines])   after = stmt | BODY_START | LOOP_START#n | LOOP_END#n | BLOCK:<stmt opening a block>
+        self.decisive_loops = False
+        self.loop_iter = {}   # (fn, n) -> ghost iterator name for a `for` loop
+        self.opaque = []      # (fn, expr, call): E6
         self.obligations = {}  # name -> meaning
         self.obl_item = {}    # name -> item (whole-item obligations)
         self.body = ""
@@ -83,9 +86,20 @@ class VUnit:
             elif key == "loop":
                 cur = []
                 self.loops[(kv["fn"], int(kv["n"]))] = cur
+                if kv.get("iter"):
+                    self.loop_iter[(kv["fn"], int(kv["n"]))] = kv["iter"]
             elif key == "proof":
                 cur = []
-                self.proofs.append((kv["fn"], kv["after"].strip(), cur))
+                after = ("BLOCK:" + kv["afterblock"].strip()) if "afterblock" in kv else \
+                        ("BLOCKEND:" + kv["endofblock"].strip()) if "endofblock" in kv else \
+                        (kv["after"].strip() + ("##" + kv["occ"] if "occ" in kv else ""))
+                self.proofs.append((kv["fn"], after, cur))
+            elif key == "decisive":
+                # `//@decisive loops`: in this unit the loop body is checked against an explicit step function by a lemma call, so a
+                # failing pre/postcondition inside the function with the loop is a refutation of the step, not a lost invariant guess
+                self.decisive_loops = (rest == "loops")
+            elif key == "opaque":
+                self.opaque.append((kv["fn"], kv["expr"], kv["call"]))
             elif key == "obligation":
                 head, _, meaning = rest.partition(":")
                 parts = head.split()
@@ -376,8 +390,39 @@ def compose(unit, outdir):
         # E2
         body2, cnt = stage.rtrace(body)
         rcount += cnt
+        # E4b on a function: `retype=<from>=><to>[;..]` rewrites a type PATH in the signature and body (e.g. serde_json::Value => Value,
+        # pointing at the abstract declaration in the spec file)
+        for rule in filter(None, e.get("retype", "").split(";")):
+            frm, _, to = rule.partition("=>")
+            sig = sig.replace(frm, to)
+            body2 = body2.replace(frm, to)
+        # E7: `fmtdrop=yes` replaces every `format!( .. )` (balanced) by `__fmt()`, an external function returning an arbitrary String:
+        # the text of error messages is dropped, the control flow around them is kept
+        if e.get("fmtdrop") == "yes":
+            while True:
+                mm = None
+                mask2 = _code_mask(body2)
+                for cand in re.finditer(r"\bformat!\s*\(", body2):
+                    if mask2[cand.start()]:
+                        mm = cand
+                        break
+                if not mm:
+                    break
+                endp = _match_paren(body2, mm.end() - 1)
+                body2 = body2[:mm.start()] + "__fmt()" + body2[endp:]
+        # E6: an expression Verus has no syntax for (iterator adapters, closures) is replaced, verbatim-matched up to white space,
+        # by a call to an external function declared (with a trusted specification) in the spec file. What is dropped is listed.
+        for (fn_, expr, call) in unit.opaque:
+            if fn_ != key:
+                continue
+            pat = r"\s*".join(re.escape(ch) for ch in re.sub(r"\s+", "", expr))
+            ms = list(re.finditer(pat, body2))
+            if len(ms) != 1:
+                raise Undecided(f"lost anchor: {len(ms)} occurrences of the opaque expression <<{expr[:60]}>> in fn {key}")
+            body2 = body2[:ms[0].start()] + call + body2[ms[0].end():]
         # E5 loops (insert from last to first so positions stay valid)
         lps = loops_in(body2)
+        kws = loop_keywords_in(body2)
         for (fn_, n), lines in sorted(unit.loops.items(), key=lambda x: -x[0][1]):
             if fn_ != key:
                 continue
@@ -385,6 +430,13 @@ def compose(unit, outdir):
                 raise Undecided(f"lost anchor: fn {key} has {len(lps)} loops, invariant given for loop {n}")
             k = lps[n - 1]
             body2 = body2[:k] + "\n" + "\n".join(lines) + "\n" + body2[k:]
+            it = unit.loop_iter.get((fn_, n))
+            if it:   # E5b: name the ghost iterator of a `for` loop (`for x in <it>: <expr>`), ghost-only syntax
+                hdr = body2[kws[n - 1]:k]
+                m = re.match(r"for\s+(.+?)\s+in\s+", hdr, re.S)
+                if not m:
+                    raise Undecided(f"lost anchor: loop {n} of fn {key} is not a `for .. in ..` loop")
+                body2 = body2[:kws[n - 1] + m.end()] + it + ": " + body2[kws[n - 1] + m.end():]
         # E5 proof blocks
         for (fn_, after, lines) in unit.proofs:
             if fn_ != key:
@@ -394,7 +446,35 @@ def compose(unit, outdir):
                 bl[1:1] = lines
                 body2 = "\n".join(bl)
                 continue
+            m = re.match(r"LOOP_(START|END|AFTER)#(\d+)$", after)
+            if m:
+                lp = loops_in(body2)
+                n = int(m.group(2))
+                if n > len(lp):
+                    raise Undecided(f"lost anchor: fn {key} has {len(lp)} loops, proof block given for loop {n}")
+                o_ = lp[n - 1]
+                at = o_ + 1 if m.group(1) == "START" else _match_paren(body2, o_) - (1 if m.group(1) == "END" else 0)
+                body2 = body2[:at] + "\n" + "\n".join(lines) + "\n" + body2[at:]
+                continue
+            if after.startswith("BLOCK:") or after.startswith("BLOCKEND:"):
+                inside = after.startswith("BLOCKEND:")
+                stmt = after.split(":", 1)[1]
+                idx = [i for i, l in enumerate(bl) if l.strip() == stmt]
+                if len(idx) != 1 or not stmt.endswith("{"):
+                    raise Undecided(f"lost anchor: {len(idx)} block openers <<{stmt}>> in fn {key}")
+                off = sum(len(l) + 1 for l in bl[:idx[0]]) + len(bl[idx[0]].rstrip()) - 1
+                end_ = _match_paren(body2, off) - (1 if inside else 0)
+                body2 = body2[:end_] + "\n" + "\n".join(lines) + "\n" + body2[end_:]
+                continue
+            occ = None
+            mo = re.match(r"(.*)##(\d+)$", after, re.S)   # `after=<<stmt>>` with `occ=k` (k-th textual occurrence)
+            if mo:
+                after, occ = mo.group(1), int(mo.group(2))
             idx = [i for i, l in enumerate(bl) if l.strip() == after]
+            if occ is not None:
+                if len(idx) < occ:
+                    raise Undecided(f"lost anchor: {len(idx)} statements <<{after}>> in fn {key}, occurrence {occ} wanted")
+                idx = [idx[occ - 1]]
             if len(idx) != 1:
                 raise Undecided(f"lost anchor: {len(idx)} statements <<{after}>> in fn {key}")
             bl[idx[0] + 1:idx[0] + 1] = lines
@@ -528,7 +608,7 @@ def add_canaries(text):
 def run_verus(path, timeout=600):
     t0 = time.time()
     try:
-        r = subprocess.run(["verus", path, "--output-json", "--time-expanded", "--multiple-errors", "20"],
+        r = subprocess.run(["verus", path, "--output-json", "--time-expanded", "--multiple-errors", "20", "-V", "spinoff-all"],
                            capture_output=True, text=True, timeout=timeout, cwd=os.path.dirname(path))
     except subprocess.TimeoutExpired:
         return None, "", "timeout", time.time() - t0
@@ -664,7 +744,8 @@ def run_units(prop, units, tiers, log, only=None):
                 item_errs = [(k, msg) for (k, msg) in errs if (item_of_line(k) or ("",))[0] == item]
                 item_flagged = [x for x in flagged if obl_items.get(x) == item]
                 msgs = [f"line {k}: {msg}: {lines[k-1].strip()[:160]}" for (k, msg) in item_errs]
-                decisive = (not item_has_loop(item)) and item_errs and all(any(msg.startswith(d) for d in decisive_msgs) for (_k, msg) in item_errs)
+                dmsgs = decisive_msgs + (("invariant not satisfied", "loop invariant not satisfied") if u.decisive_loops else ())
+                decisive = (u.decisive_loops or not item_has_loop(item)) and item_errs and all(any(msg.startswith(d) for d in dmsgs) for (_k, msg) in item_errs)
                 if not decisive:
                     proof_lost.append(f"{o} ({item}): " + "; ".join(msgs)[:300])
                     continue
@@ -672,6 +753,14 @@ def run_units(prop, units, tiers, log, only=None):
                     entry["obligations_failed"].append({"name": o, "item": item, "detail": "; ".join(msgs)[:800]})
         if proof_lost and not entry["obligations_failed"]:
             entry.update(status="undecided", reason="proof lost (loop invariant / proof-block assertion no longer verifies; not a decisive refutation): " + " | ".join(proof_lost)[:600])
+            res[u.name] = entry
+            continue
+        # an item that fails but carries no named obligation (a helper lemma that other proofs call): the proofs that rely on
+        # it are not established -> undecided, never silently ignored
+        covered_items = set(obl_items.values())
+        orphan = sorted(n for n in failed_items if n not in covered_items)
+        if orphan and not entry["obligations_failed"]:
+            entry.update(status="undecided", reason="proof lost: helper item(s) without a named obligation failed: " + ", ".join(orphan))
             res[u.name] = entry
             continue
         if entry.get("no_query"):
